@@ -130,6 +130,25 @@ func maybeLarge(rec *core.Recorder, srcs map[string]string) map[string]string {
 	return out
 }
 
+// shadowedGlobals gives one case in four engine globals that carry the names of the context variables with other values: a
+// variable passed to the render shadows a global of the same name in every template the render reaches, so the reference
+// output is unchanged.
+func shadowedGlobals(rec *core.Recorder, canon string, ctx map[string]interface{}, inner func(*twig.Engine)) func(*twig.Engine) {
+	if core.Hash64(canon, "globals")%4 != 0 {
+		return inner
+	}
+	rec.Count("shadowed-globals-cases", 1)
+	return func(e *twig.Engine) {
+		for k := range ctx {
+			e.AddGlobal(k, "GLOBAL<"+k+">")
+		}
+		e.AddGlobal("an_unrelated_global", 1)
+		if inner != nil {
+			inner(e)
+		}
+	}
+}
+
 func fmtTicks(t []int64) string {
 	parts := make([]string, len(t))
 	for i, x := range t {
